@@ -27,3 +27,77 @@ package keeper
 //@            ==> Store_oracle == store(old(Store_oracle), types.ValidatorStatusStoreKey(val), enc(types.ValidatorStatus{false, ctx.BlockTime()}))
 //@ ensures !(old(vstatus(Store_oracle, val)).IsActive && old(vstatus(Store_oracle, val)).Since < requestTime)
 //@            ==> Store_oracle == old(Store_oracle)
+
+// ---- C01: reports ---------------------------------------------------------------------------------
+//@ spec reqAt(s Store, id Int) types.Request = dec(types.Request, s[types.RequestStoreKey(id)])
+//@ spec hasEID(rs []types.RawRequest, e Int) Bool = exists i :: 0 <= i && i < len(rs) && rs[i].ExternalID == e
+//@ spec requestedVal(vs []string, v Addr) Bool = exists i :: 0 <= i && i < len(vs) && bech32ok(vs[i]) && bech32addr(vs[i]) == v
+// the pending-resolve list as stored (empty when the key is absent or empty)
+//@ spec pendingIDs(s Store) []uint64 = len(s[types.PendingResolveListStoreKey]) == 0 ? zero("[]uint64") : dec(types.PendingResolveList, s[types.PendingResolveListStoreKey]).RequestIds
+
+//@ func ContainsEID
+//@ ensures result <==> hasEID(rawRequests, target)
+//@ loop 0: invariant forall j :: 0 <= j && j < #i ==> rawRequests[j].ExternalID != target
+
+// Only a validator chosen for the request can report, at most once, with exactly as many raw reports as
+// raw requests and only with external ids that occur in the request.
+//@ func (k Keeper) CheckValidReport
+//@ ensures err == nil ==> has(Store_oracle, types.RequestStoreKey(rid))
+//@ ensures err == nil ==> requestedVal(reqAt(Store_oracle, rid).RequestedValidators, val)
+//@ ensures err == nil ==> !has(Store_oracle, types.ReportsOfValidatorPrefixKey(rid, val))
+//@ ensures err == nil ==> len(rawReports) == len(reqAt(Store_oracle, rid).RawRequests)
+//@ ensures err == nil ==> (forall j :: 0 <= j && j < len(rawReports) ==> hasEID(reqAt(Store_oracle, rid).RawRequests, rawReports[j].ExternalID))
+//@ loop 0: invariant !found
+//@ loop 1: invariant forall j :: 0 <= j && j < #i ==> hasEID(req.RawRequests, rawReports[j].ExternalID)
+
+// The number of reports of a request is the number of store entries under its report prefix.
+//@ func (k Keeper) GetReportCount
+//@ ensures count == pcount(Store_oracle, types.ReportStoreKey(rid))
+//@ loop 0: invariant count == itpos(iterator) && itpos(iterator) <= itlen(iterator)
+
+// protobuf wire-format fact (trusted): a PendingResolveList encodes to zero bytes iff its list is empty
+//@ axiom pendingEnc: forall x types.PendingResolveList :: (len(enc(x)) == 0) <==> (len(x.RequestIds) == 0)
+
+//@ func (k Keeper) GetPendingResolveList
+//@ ensures len(ids) == len(pendingIDs(Store_oracle))
+//@ ensures forall j :: 0 <= j && j < len(ids) ==> ids[j] == pendingIDs(Store_oracle)[j]
+//@ loop 0: invariant len(ids) == #i && (forall j :: 0 <= j && j < #i ==> ids[j] == pendingResolveList.RequestIds[j])
+
+//@ func (k Keeper) SetPendingResolveList
+//@ modifies Store_oracle
+//@ ensures len(pendingIDs(Store_oracle)) == len(ids)
+//@ ensures forall j :: 0 <= j && j < len(ids) ==> pendingIDs(Store_oracle)[j] == ids[j]
+//@ ensures forall q Bz :: q != types.PendingResolveListStoreKey ==> Store_oracle[q] == old(Store_oracle)[q]
+//@ loop 0: invariant len(intVs) == len(ids) && (forall j :: 0 <= j && j < #i ==> intVs[j] == ids[j])
+
+//@ func (k Keeper) AddPendingRequest
+//@ modifies Store_oracle
+//@ ensures len(pendingIDs(Store_oracle)) == len(old(pendingIDs(Store_oracle))) + 1
+//@ ensures pendingIDs(Store_oracle)[len(old(pendingIDs(Store_oracle)))] == id
+//@ ensures forall j :: 0 <= j && j < len(old(pendingIDs(Store_oracle))) ==> pendingIDs(Store_oracle)[j] == old(pendingIDs(Store_oracle))[j]
+//@ ensures forall q Bz :: q != types.PendingResolveListStoreKey ==> Store_oracle[q] == old(Store_oracle)[q]
+
+// C01: a report is accepted only before expiry, only from a validator chosen for the request, at most once
+// and with exactly the requested external ids; the request joins the pending-resolve list exactly when
+// this report makes the number of in-time reports equal to min_count (so at most once per request).
+//@ func (k msgServer) ReportData
+//@ modifies Store_oracle
+//@ requires len(Store_oracle[types.RequestLastExpiredStoreKey]) >= 8
+//@ ensures err == nil ==> msg.RequestID > u64of(old(Store_oracle)[types.RequestLastExpiredStoreKey])
+//@ ensures err == nil ==> bech32ok(msg.Validator) && old(has(Store_oracle, types.RequestStoreKey(msg.RequestID)))
+//@ ensures err == nil ==> requestedVal(old(reqAt(Store_oracle, msg.RequestID)).RequestedValidators, bech32addr(msg.Validator))
+//@ ensures err == nil ==> !old(has(Store_oracle, types.ReportsOfValidatorPrefixKey(msg.RequestID, bech32addr(msg.Validator))))
+//@ ensures err == nil ==> has(Store_oracle, types.ReportsOfValidatorPrefixKey(msg.RequestID, bech32addr(msg.Validator)))
+//@ ensures err == nil ==> len(msg.RawReports) == len(old(reqAt(Store_oracle, msg.RequestID)).RawRequests)
+//@ ensures err == nil ==> (forall j :: 0 <= j && j < len(msg.RawReports) ==> hasEID(old(reqAt(Store_oracle, msg.RequestID)).RawRequests, msg.RawReports[j].ExternalID))
+//@ ensures err == nil ==>
+//@    (let s1 = store(old(Store_oracle), types.ReportsOfValidatorPrefixKey(msg.RequestID, bech32addr(msg.Validator)),
+//@                    enc(types.Report{addrstr(bech32addr(msg.Validator)), !old(has(Store_oracle, types.ResultStoreKey(msg.RequestID))), msg.RawReports})) in
+//@     let due = !old(has(Store_oracle, types.ResultStoreKey(msg.RequestID)))
+//@               && pcount(s1, types.ReportStoreKey(msg.RequestID)) == old(reqAt(Store_oracle, msg.RequestID)).MinCount in
+//@     (due ==> len(pendingIDs(Store_oracle)) == len(old(pendingIDs(Store_oracle))) + 1
+//@              && pendingIDs(Store_oracle)[len(old(pendingIDs(Store_oracle)))] == msg.RequestID
+//@              && (forall j :: 0 <= j && j < len(old(pendingIDs(Store_oracle))) ==> pendingIDs(Store_oracle)[j] == old(pendingIDs(Store_oracle))[j])
+//@              && (forall q Bz :: q != types.PendingResolveListStoreKey ==> Store_oracle[q] == s1[q]))
+//@     && (!due ==> Store_oracle == s1))
+//@ ensures err != nil ==> Store_oracle == old(Store_oracle)
